@@ -1,7 +1,7 @@
 (* C16 -- the refinement theorems: every operation of the code-shaped Queue model (L1) preserves
    the representation invariant and refines the ideal sequence (L0), with equal results; lifted
    to all operation lists; no-stale-items corollaries. *)
-From Coq Require Import List Arith ZArith Bool Lia ZifyBool.
+From Coq Require Import List Arith ZArith NArith Bool Lia ZifyBool.
 From Muscle Require Import Cont.QueueModel Cont.QueueLemmas Cont.QueueInv Cont.QueueOps1 Cont.QueueEnsure
   Cont.QueueOps2 Cont.QueueOps3 Cont.QueueSort.
 Import ListNotations.
@@ -73,7 +73,8 @@ Proof.
     destruct (clear_shape sq ow q release I) as (J1&J2&_). cbn [fst snd].
     rewrite (abs_cnt0 _ J2). auto.
   - (* EnsureSize *)
-    destruct (ensure_size_spec jk sq ow q n setnum extra shrink I) as (J1&J2&_). cbn [fst snd]. auto.
+    destruct (too_big n extra); cbn [fst snd]; [auto|].
+    destruct (ensure_size_spec jk sq ow q (N.to_nat n) setnum (N.to_nat extra) shrink I) as (J1&J2&_). auto.
   - (* Swap *)
     rewrite abs_length. destruct ((i <? cnt q) && (j <? cnt q)) eqn:E; cbn [fst snd]; [|auto].
     destruct (swap_items_spec sq ow q i j I ltac:(lia) ltac:(lia)) as (J1&J2&_). auto.
@@ -138,9 +139,11 @@ Proof.
     destruct (remove_all_instances ow q (getu q i)) as [q' k]. cbn [fst snd] in *.
     destruct S as (S1&S2&S3). rewrite nth_abs by lia. subst k. auto.
   - (* ShrinkToFit *)
-    destruct (ensure_size_spec jk sq ow q (cnt q + extra) false 0 true I) as (J1&J2&_). cbn [fst snd]. auto.
+    rewrite abs_length. destruct (too_big (N.of_nat (cnt q)) extra); cbn [fst snd negb]; [auto|].
+    destruct (ensure_size_spec jk sq ow q (cnt q + N.to_nat extra) false 0 true I) as (J1&J2&_). auto.
   - (* EnsureCanAdd *)
-    destruct (ensure_size_spec jk sq ow q (cnt q + n) false 0 false I) as (J1&J2&_). cbn [fst snd]. auto.
+    rewrite abs_length. destruct (too_big (N.of_nat (cnt q)) n); cbn [fst snd negb]; [auto|].
+    destruct (ensure_size_spec jk sq ow q (cnt q + N.to_nat n) false 0 false I) as (J1&J2&_). auto.
   - (* ReplaceAllItems *)
     destruct (write_all_spec sq ow q (repeat x (cnt q)) I (repeat_length x (cnt q))). cbn [fst snd].
     rewrite abs_length. auto.
@@ -169,6 +172,8 @@ Definition undefined0 (l : list Z) (o : op) : Prop :=
   | ORemoveAt i | OReplaceAt i _ | OGet i | OAddTailRef i | OAddHeadRef i | OInsertAtRef _ i => length l <= i
   | OReplaceRef idx i => length l <= idx \/ length l <= i
   | ORemoveFirstInstance x | ORemoveLastInstance x => ~ In x l
+  | OEnsure n _ e _ => too_big n e = true                      (* the uint32 sum n+extra is out of range *)
+  | OShrinkToFit e | OEnsureCanAdd e => too_big (N.of_nat (length l)) e = true
   | _ => False
   end.
 
@@ -197,6 +202,9 @@ Proof.
   - (* RemoveItemAt *) destruct (i <? length l) eqn:E; cbn [snd]; split; try lia; try tauto. intros [H|H]; discriminate H.
   - (* ReplaceItemAt *) destruct (i <? length l) eqn:E; cbn [snd]; split; try lia; try tauto. intros [H|H]; discriminate H.
   - (* GetItemAt *) destruct (i <? length l) eqn:E; split; try lia; try tauto. intros [H|H]; discriminate H.
+  - (* EnsureSize *)
+    destruct (too_big n extra); cbn [snd]; split; try (intros _; reflexivity); try (intros _; right; reflexivity);
+      try discriminate. intros [H|H]; discriminate H.
   - (* RemoveFirstInstanceOf *)
     destruct (find_from x l 0) eqn:E; cbn [snd].
     + split; [intros [H|H]; discriminate H|]. intros H. apply (find_from_none x l 0) in H. congruence.
@@ -210,6 +218,12 @@ Proof.
   - (* InsertItemAt(idx, q[i]) *) destruct (i <? length l) eqn:E; cbn [snd]; split; try lia; try tauto. intros [H|H]; discriminate H.
   - (* ReplaceItemAt(idx, q[i]) *)
     destruct ((idx <? length l) && (i <? length l)) eqn:E; cbn [snd]; split; try lia; try tauto. intros [H|H]; discriminate H.
+  - (* ShrinkToFit *)
+    destruct (too_big (N.of_nat (length l)) extra); cbn [snd negb]; split; try (intros _; reflexivity);
+      try (intros _; right; reflexivity); try discriminate. intros [H|H]; discriminate H.
+  - (* EnsureCanAdd *)
+    destruct (too_big (N.of_nat (length l)) n); cbn [snd negb]; split; try (intros _; reflexivity);
+      try (intros _; right; reflexivity); try discriminate. intros [H|H]; discriminate H.
 Qed.
 
 Theorem step0_fail_unchanged l o :
@@ -301,7 +315,7 @@ Qed.
 Example heap_state : exists q,
   inv false 3 q /\ st q = SHeap /\ cnt q = 2 /\ In 77%Z (arr q) /\ ~ In 77%Z (abs q).
 Proof.
-  set (ops := [OEnsure 6 false 0 false; OAddHead 5%Z; OAddHead 6%Z]).
+  set (ops := [OEnsure 6%N false 0%N false; OAddHead 5%Z; OAddHead 6%Z]).
   exists (fst (run1 false 77%Z 3 ops)).
   split; [apply run_refines; lia|]. vm_compute. repeat split; auto.
   intros [H|[H|[]]]; discriminate.
